@@ -2,6 +2,7 @@
    Statements only; Reader/Reader.v is the reader loop, Lemmas/ReaderLemmas.v the induction over chunk lists. *)
 From Coq Require Import ZArith List Bool.
 From CP Require Import Core.Bytes Core.Result Frame.LVFrame Frame.Units Reader.Reader Lemmas.ReaderLemmas Lemmas.UnitLemmas Lemmas.UnitInstances Frame.Ssl2 Lemmas.Ssl2Lemmas Frame.SshPacket Lemmas.SshPacketLemmas.
+From CP Require Import Lemmas.ReaderInstances.
 Open Scope Z_scope.
 
 (* generic: for any parser and any sequence of frames that round-trip with a suffix and whose proper prefixes are
@@ -49,3 +50,16 @@ Theorem C04_ssh_prefix_rejected : forall msg f x k,
   ssh_parse msg f = Ok (x, zlen f) -> 0 <= k < zlen f ->
   exists m, ssh_parse msg (firstn (Z.to_nat k) f) = Err (NotEnoughData m) /\ 1 <= m <= zlen f - k.
 Proof. exact ssh_prefix_rejected. Qed.
+
+(* the reader theorem instantiated at the two record layers that are not length-value frames: any sequence of composed SSL 2.0
+   records (any message parser that accepts the messages entirely) and any sequence of composed SSH binary packets is
+   reassembled exactly, whatever the fragmentation *)
+Theorem C04_ssl2_reader : forall msg types frames chunks,
+  Forall (ssl2_composed msg types) frames -> concat chunks = concat (map snd frames) ->
+  let st := run_reader _ (ssl2_parse msg types) chunks in status st = Running /\ out st = map fst frames /\ rbuf st = nil.
+Proof. exact ssl2_reader. Qed.
+
+Theorem C04_ssh_reader : forall msg frames chunks,
+  Forall (ssh_composed msg) frames -> concat chunks = concat (map snd frames) ->
+  let st := run_reader _ (ssh_parse msg) chunks in status st = Running /\ out st = map fst frames /\ rbuf st = nil.
+Proof. exact ssh_reader. Qed.
